@@ -161,9 +161,9 @@ class C28(VectorEngine):
                    "equality between lists one of which has an undecided separator is not decided by the model; such index calls are skipped",
                    "a failing step fails the whole stylesheet: a run containing an error is observed as one error"]
     mc_runs = {
-        "quick": [("MC_Lists", "MC_Lists_C28_a.cfg", {"workers": 6}), ("MC_Lists", "MC_Lists_C28_b.cfg", {"workers": 6})],
-        "thorough": [("MC_Lists", "MC_Lists_C28_a.cfg", {"workers": 6}), ("MC_Lists", "MC_Lists_C28_b.cfg", {"workers": 6}),
-                     ("MC_Lists", "MC_Lists_C28_t.cfg", {"workers": 6, "timeout": 1500})],
+        "quick": [("MC_Lists", "MC_Lists_C28_a.cfg", {"workers": 4}), ("MC_Lists", "MC_Lists_C28_b.cfg", {"workers": 4})],
+        "thorough": [("MC_Lists", "MC_Lists_C28_a.cfg", {"workers": 4}), ("MC_Lists", "MC_Lists_C28_b.cfg", {"workers": 4}),
+                     ("MC_Lists", "MC_Lists_C28_t.cfg", {"workers": 4, "timeout": 1500})],
     }
     random_n = {"quick": 1000, "thorough": 15000}
 
